@@ -994,10 +994,16 @@ V('c08-qualcache-only-if-new', 'C08', 'C08.R13',
   ('pywbem/_mof_compiler.py', "    p.parser.qualcache[ns][qualdecl.name] = qualdecl\n",
    "    if qualdecl.name not in p.parser.qualcache[ns]:\n        p.parser.qualcache[ns][qualdecl.name] = qualdecl\n"),
   'cache-not-replaced')
-V('c11-request-namespace-first', 'C11', 'C11.R5',
-  ('pywbem_mock/_instancewriteprovider.py', "                multi_ns.append(namespace)\n",
-   "                multi_ns.insert(0, namespace)\n"),
-  'validated-not-last')
+V('c11-copies-not-checked', 'C11', 'C11.R5',
+  ('pywbem_mock/_instancewriteprovider.py',
+   "                    if instance_store.object_exists(instance_name_copy):\n                        existing_copies.append(\n                            (instance_store, instance_name_copy))\n",
+   "                    existing_copies.append(\n                        (instance_store, instance_name_copy))\n"),
+  'unvalidated-delete')
+V('c11-delete-while-looking-up', 'C11', 'C11.R5',
+  ('pywbem_mock/_instancewriteprovider.py',
+   "                    if instance_store.object_exists(instance_name_copy):\n                        existing_copies.append(\n                            (instance_store, instance_name_copy))\n",
+   "                    if instance_store.object_exists(instance_name_copy):\n                        instance_store.delete(instance_name_copy)\n"),
+  'lookup-between-deletes')
 V('c01-property-reference-value-without-host', 'C01', 'C01.R16',
   (OBJ, "                value_xml = _cim_xml.VALUE_REFERENCE(self.value.tocimxml())", 
    "                value_xml = _cim_xml.VALUE_REFERENCE(\n                    self.value.tocimxml(ignore_host=True))", 1, 0),
